@@ -28,6 +28,7 @@ def gen(rng, k):
             op['edcp'] = rng.choice([6, 7])
         elif fail == 'absent':
             op['absent'] = True
+            op['timeout'] = rng.choice([0.2, 0.4, 1, 2])
         ops.append(op)
     return dict(kind='dm14', ops=ops, seedkey=seedkey, client_wrong_key=wrong_client,
                 seeds=[rng.choice([0x0001, 0xFFFE, 0xA55A, rng.randint(1, 0xFFFE)]) for _ in range(12)],
@@ -47,6 +48,11 @@ def oracle(sc, res):
         if op.get('absent'):
             if r[0] != 'exc' or 'No response' not in txt:
                 v.append(dict(kind='absent-server-not-reported', op=i, result=r[:3]))
+            # "... as an exception within the caller's timeout" (plus scheduling latency)
+            if i < len(res.times) and res.times[i][1] is not None:
+                took = res.times[i][1] - res.times[i][0]
+                if took > int(op.get('timeout', 1) * 1e6) + 150_000:
+                    v.append(dict(kind='absent-server-reported-after-the-callers-timeout', op=i, opkind=op['kind'], timeout_s=op.get('timeout', 1), took_us=took))
             continue
         if wrong:
             # key gate: nothing reaches the application, no data is served, the client is told "invalid key" (0x1003)
